@@ -76,11 +76,22 @@ const (
 	dTopUpOtherCreds
 	dInvalidPubkey
 	dGarbageSig
+	// signature-byte shapes (the spec verifies the signature of NEW pubkeys only; a top-up counts whatever its
+	// signature bytes are, even when they do not decode)
+	dNewSigZero
+	dNewSigFF
+	dNewSigInfinity
+	dTopUpSigZero
+	dTopUpSigFF
+	dTopUpSigGarbage
+	dTopUpSigInfinity
+	dRedeposit // valid deposit of a pubkey whose earlier deposit(s) were ignored: must create the validator
 	numKinds
 )
 
 var kindNames = []string{"new_full", "new_partial", "new_over", "new_bad_pop", "new_wrong_domain", "new_eth1_creds",
-	"topup", "topup_bad_sig", "topup_other_creds", "invalid_pubkey", "garbage_sig"}
+	"topup", "topup_bad_sig", "topup_other_creds", "invalid_pubkey", "garbage_sig",
+	"new_sig_zero", "new_sig_ff", "new_sig_infinity", "topup_sig_zero", "topup_sig_ff", "topup_sig_garbage", "topup_sig_infinity", "redeposit"}
 
 type listPlan struct {
 	class string
@@ -108,16 +119,26 @@ func (r *recorder) buildDeposits(pl listPlan) []common.Deposit {
 	max := spec.MAX_EFFECTIVE_BALANCE
 	inc := spec.EFFECTIVE_BALANCE_INCREMENT
 	nextKey := chain.KeyID(0)
-	var made []chain.KeyID // keys that (tried to) deposit so far
+	var made []chain.KeyID    // keys that (tried to) deposit so far
+	var created []chain.KeyID // keys whose deposit created a validator (valid proof of possession)
+	var ignored []chain.KeyID // keys whose deposits were all ignored so far
+	isTopKind := func(k depKind) bool {
+		return k == dTopUp || k == dTopUpBadSig || k == dTopUpOtherCreds || k == dTopUpSigZero || k == dTopUpSigFF ||
+			k == dTopUpSigGarbage || k == dTopUpSigInfinity
+	}
 	for i, k := range pl.kinds {
 		ds := chain.DepositSpec{}
 		amount := common.Gwei(0)
 		if i < len(pl.amounts) {
 			amount = pl.amounts[i]
 		}
-		isTop := (k == dTopUp || k == dTopUpBadSig || k == dTopUpOtherCreds) && len(made) > 0
-		if isTop {
-			ds.Key = made[r.rng.Intn(len(made))]
+		isTop := isTopKind(k) && len(created) > 0
+		if k == dRedeposit && len(ignored) > 0 {
+			ds.Key = ignored[0]
+			ignored = ignored[1:]
+			created = append(created, ds.Key)
+		} else if isTop {
+			ds.Key = created[r.rng.Intn(len(created))]
 			if amount == 0 {
 				amount = inc * common.Gwei(1+r.rng.Intn(3))
 				if r.rng.Intn(3) == 0 {
@@ -128,6 +149,13 @@ func (r *recorder) buildDeposits(pl listPlan) []common.Deposit {
 			ds.Key = nextKey
 			nextKey++
 			made = append(made, ds.Key)
+			switch k {
+			case dNewBadPoP, dNewWrongDomain, dGarbageSig, dNewSigZero, dNewSigFF, dNewSigInfinity:
+				ignored = append(ignored, ds.Key)
+			case dInvalidPubkey:
+			default:
+				created = append(created, ds.Key)
+			}
 		}
 		switch k {
 		case dNewPartial:
@@ -158,10 +186,18 @@ func (r *recorder) buildDeposits(pl listPlan) []common.Deposit {
 				data.Pubkey[j] = 0xff
 			}
 			made = made[:len(made)-1]
-		case dGarbageSig:
+		case dGarbageSig, dTopUpSigGarbage:
 			for j := range data.Signature {
 				data.Signature[j] = byte(0x11 + j)
 			}
+		case dNewSigZero, dTopUpSigZero:
+			data.Signature = common.BLSSignature{}
+		case dNewSigFF, dTopUpSigFF:
+			for j := range data.Signature {
+				data.Signature[j] = 0xff
+			}
+		case dNewSigInfinity, dTopUpSigInfinity:
+			data.Signature = chain.InfinitySignature
 		}
 		t.Append(data)
 	}
@@ -375,6 +411,10 @@ func catalogue(spec *common.Spec) []listPlan {
 		{class: "amount_edges", kinds: cat(rep(dNewFull, spe), rep(dNewPartial, 5)),
 			amounts: append(make([]common.Gwei, spe), max-1, inc-1, inc, max-inc, 1)},
 		{class: "eth1_creds", kinds: cat(rep(dNewEth1Creds, 2), rep(dNewFull, spe))},
+		{class: "topup_signature_shapes", kinds: cat(rep(dNewFull, spe), []depKind{dNewPartial, dTopUp, dTopUpBadSig, dTopUpSigZero,
+			dTopUpSigFF, dTopUpSigGarbage, dTopUpSigInfinity, dTopUp})},
+		{class: "new_signature_shapes_then_redeposit", kinds: cat(rep(dNewFull, spe), []depKind{dNewBadPoP, dNewSigZero, dNewSigFF,
+			dGarbageSig, dNewSigInfinity, dRedeposit, dRedeposit, dRedeposit, dRedeposit, dRedeposit, dTopUpSigFF})},
 	}
 	for _, how := range []string{"flip", "final_tree", "swap"} {
 		for _, at := range []int{0, spe / 2, spe + 1} {
